@@ -79,6 +79,21 @@ CHECKS["C03"] = dict(
          "shape grammar (non-empty bodies, single-key statement dicts).",
     design="4/C03")
 
+CHECKS["C18"] = dict(
+    level="model_checking", engine="X",
+    technique="CrossHair symbolic execution (z3) of the real Lian.set_workspace_dir + WorkspaceBuilder.run over an in-memory "
+              "filesystem, configuration (workspace option, inputs, tree flags, --force) as solver variables; counterexamples "
+              "replayed on the real filesystem in a scratch directory",
+    text="Bounded model checking over configurations: for every workspace option of 1-2 components (relative/absolute, "
+         "default name, custom name containing the default name, '..', '.'), 1-2 inputs (directory, file, nested, the "
+         "workspace itself, parents), presence of a nested directory / symlink / stale workspace, with and without "
+         "--force, the real preparation code runs against a logging filesystem model; every create/write/delete must lie "
+         "under realpath(workspace), deletes need --force, nothing outside changes, and the number of effects is bounded by "
+         "the inputs. CONFIRMED = all configurations of the slice exhausted.",
+    note="Trusted: CrossHair/z3 (configurations decode to concrete paths: enumerative variables), the filesystem model "
+         "(vlib/stubs/fakefs.py; counterexamples must reproduce on the real filesystem).",
+    design="4/C18")
+
 NOT_APPLICABLE = {
     "C12": "A relation between two whole-pipeline runs on syntactically edited programs: the quantified objects are "
            "program texts and edit sequences; no run-time input, id, flag or history for a solver to range over; "
